@@ -31,7 +31,7 @@ CFG = {
     "quick":    dict(mc="MC_RefCount.cfg",   gen="Gen_RefCount.cfg",   nhist=160, steps=50),
     "thorough": dict(mc="MC_RefCount_t.cfg", gen="Gen_RefCount_t.cfg", nhist=1600, steps=70),
 }
-KINDS = ["buf", "hmeta", "reply", "rawdata", "geninfo", "metabuf", "cxxref", "bare"]
+KINDS = ["buf", "hmeta", "reply", "rawdata", "stream", "geninfo", "metabuf", "cxxref", "bare"]
 T_NH, T_NOBJ, T_MAX, T_EXTRA = 4, 8, 1000, 3      # constants of Trace_RefCount.cfg
 
 
@@ -39,8 +39,9 @@ def build():
     core = vseam.seam_archive("core", vseam.repo_c_files("mptcore", exclude=("libinfo.c",)))
     plot = vseam.seam_archive("plotvals", ["mptplot/rawdata_create.c", "mptplot/rawdata_type_traits.c"]
                               + vseam.repo_c_files("mptplot/values"))
+    io = vseam.seam_archive("io", vseam.repo_c_files("mptio", exclude=("libinfo.c",)))
     drv = vseam.cached_objects([os.path.join(vlib.DRV, "refcount.c")])
-    flags = tuple(drv) + ("-Wl,--whole-archive", plot, core, "-Wl,--no-whole-archive")
+    flags = tuple(drv) + ("-Wl,--whole-archive", plot, io, core, "-Wl,--no-whole-archive")
     return vlib.build_driver("refcount", ["refcount_cxx.cpp"], cxx=True, repo_sources=("mpt++/refcount_wrap.cpp",),
                              extra_flags=flags, link_libs=False)
 
@@ -64,6 +65,8 @@ def match(exp, obs, step, rec, prev):
             return "%s: expected %s, observed %s" % (k, exp[k], obs.get(k))
     if exp["val"] != -1 and obs.get("val") != exp["val"]:
         return "val: expected %s, observed %s" % (exp["val"], obs.get("val"))
+    if exp["quiet"] == 0 and obs.get("quiet") != 0:
+        return "quiet: nothing is referred to any more but %s allocation(s) remain" % obs.get("quiet")
     return None
 
 
@@ -84,8 +87,8 @@ def kind_of(beh):
 # ---------------------------------------------------------------------------
 COPY_VIAS = {"buf": ["clone", "traits", "cxx", "cxxctor"], "cxxref": ["cxx", "cxxctor"]}
 DROP_VIAS = {"buf": ["clone", "fini", "raw", "cxx"], "cxxref": ["cxx"]}
-META = ("hmeta", "reply", "rawdata", "geninfo", "metabuf")
-SHARABLE = ("buf", "hmeta", "reply", "rawdata", "cxxref")
+META = ("hmeta", "reply", "rawdata", "stream", "geninfo", "metabuf")
+SHARABLE = ("buf", "hmeta", "reply", "rawdata", "stream", "cxxref")
 CLONABLE = ("hmeta", "geninfo", "metabuf")
 
 
@@ -130,7 +133,7 @@ def gen_histories(ck, n, steps):
         dv = DROP_VIAS.get(k, ["conv", "fini", "raw", "cxx"])
         for _ in range(steps):
             ops = ["create"] * 3 + ["copy"] * 8 + ["drop"] * 4 + ["move"] * 2 + ["detach", "adopt", "adopt", "rawref", "rawunref",
-                   "rawunref", "arrcopy", "arrdrop", "arrdrop", "clone", "poke", "unpoke", "unpoke", "defer", "undefer", "undefer"]
+                   "rawunref", "arrcopy", "arrdrop", "arrdrop", "clone", "unshare", "unshare", "poke", "unpoke", "unpoke", "defer", "undefer", "undefer"]
             op = rng.choice(ops)
             alive = [o for o in range(1, m.made + 1) if m.cnt[o] > 0]
             if op == "create":
@@ -225,6 +228,20 @@ def gen_histories(ck, n, steps):
                 c, m.c = m.c, None
                 for o in c:
                     m.lower(o)
+            elif op == "unshare":
+                hs = [i for i in range(T_NH) if m.h[i]]
+                if k != "buf" or not hs:
+                    continue
+                i = rng.choice(hs)
+                o = m.h[i]
+                if m.cnt[o] > 1 and m.made >= T_NOBJ:
+                    continue
+                beh.append({"a": "unshare", "arg": {"h": i + 1, "via": rng.choice(["vptr", "reserve"])}})
+                if m.cnt[o] > 1:
+                    m.cnt[o] -= 1
+                    m.made += 1
+                    m.h[i] = m.made
+                    m.cnt[m.made] = 1
             elif op == "clone":
                 if k not in META or m.made >= T_NOBJ:
                     continue
